@@ -16,7 +16,8 @@ structure Meas (α : Type) where
 structure LogUnit (α : Type) where
   base      : Mag α
   pfx       : Pfx
-  reference : Qty α
+  reference : Qty α          -- `reference.unprefixed()`, what the unit stores
+  key       : Qty α          -- the reference as passed: `LogarithmicUnit._known` is keyed by it
   deriving Inhabited
 
 section
